@@ -173,6 +173,8 @@ class Ctx:
                 saved = (self.cov["states"], self.cov["transitions"])
                 r = self.tlc(module, cfg=cfg or module + ".cfg", env=env, heap=heap)
                 self.cov["states"], self.cov["transitions"] = saved
+                if (k + 1) not in r["rejects"] and any(pr[0] == "NOMEANING" and pr[1].strip() == str(k + 1) for pr in r["prints"]):
+                    continue        # the specification gives this line no meaning (nothing is demanded of it): corrupt another one
                 if (k + 1) not in r["rejects"]:
                     raise ToolError("binding self-test failed: %s (mode %s) accepted a trace in which line %d was corrupted (%s)" % (module, mode, k + 1, c.get("_corrupted")))
                 self.notes["binding_selftest"] = "one recorded field corrupted (%s) in a copy of a trace: rejected at exactly that line" % c.get("_corrupted")
